@@ -409,25 +409,9 @@ def rule_G(ctx):
     EN = absint.classref(ctx, 'tracklib.core.obs_coords.ENUCoords', fn)
     fn['sqrt'], fn['hypot'], fn['atan2'] = math.sqrt, math.hypot, math.atan2
 
-    class O(orders.PyStub):
-        isa = ('Obs',)
-
-        def __init__(self, k, x, y):
-            self.k = k
-            self.position = EN(float(x), float(y), 0.0)
-            self.timestamp = None
-            self.features = []
-
-        def copy(self):
-            o = O(self.k, self.position.fields['E'], self.position.fields['N'])
-            o.features = list(self.features)
-            return o
-
-        def distance2DTo(self, o):
-            return self.position.call('distance2DTo', o.position)
-
-        def distanceTo(self, o):
-            return self.position.call('distanceTo', o.position)
+    def O(k, x, y):
+        # the repository's own Obs over its own ENUCoords, tagged with its rank in the input
+        return absint.real_obs(ctx, fn, EN(float(x), float(y), 0.0), None, k=k)
 
     def seg_dist(p, a, b):
         (px, py), (ax, ay), (bx, by) = p, a, b
@@ -481,13 +465,13 @@ def rule_G(ctx):
                     found.setdefault((algo, 'fails'), (f, 'does not fail on repeated / coincident positions, closed loops included',
                                                        dict(case, exception='%s: %s' % (type(ex).__name__, str(ex)[:160]))))
                     continue
-                kept = [o.k for o in res.fields['_Track__POINTS']] if isinstance(res, orders.Obj) and '_Track__POINTS' in res.fields else None
+                kept = [o.fields.get('k') if isinstance(o, orders.Obj) else None for o in res.fields['_Track__POINTS']] if isinstance(res, orders.Obj) and '_Track__POINTS' in res.fields else None
                 n = len(pts)
                 if kept is None or any(k is None for k in kept) or kept != sorted(set(kept)) or not kept or kept[0] != 0 or kept[-1] != n - 1:
                     found.setdefault((algo, 'subsequence'), (f, 'returns a subsequence of the input observations in their original order that contains the first and the last one',
                                                              dict(case, **{'indices kept': kept})))
                     continue
-                src_now = [(o.k, o.position.fields['E'], o.position.fields['N'], len(o.features)) for o in t.fields['_Track__POINTS']]
+                src_now = [(o.fields['k'], o.fields['position'].fields['E'], o.fields['position'].fields['N'], len(o.fields['features'])) for o in t.fields['_Track__POINTS']]
                 if src_now != [(k, float(p_[0]), float(p_[1]), 0) for k, p_ in enumerate(pts)] or t.call('getListAnalyticalFeatures'):
                     found.setdefault((algo, 'source'), (f, 'leaves the input track as it was (no fix removed, no scratch feature left)',
                                                         dict(case, **{'input track after': src_now, 'features listed': t.call('getListAnalyticalFeatures')})))
